@@ -358,11 +358,7 @@ func runC16(c *Ctx) {
 
 	// ---- R5 limits
 	c.rule("C16-R5", "MPT: every insert into Hub.connections / Room.connections is preceded, in the same critical section, by a comparison of len(<that map>) with the configured maximum whose len==max outcome does not reach the insert; and the *Config handed to NewServer reaches the Hub it creates")
-	limitRule := func(rel, fname, typ, field string, isMax func(v ssa.Value) bool) {
-		fn := c.mustFn("C16-R5", rel, fname)
-		if fn == nil {
-			return
-		}
+	limitRuleIn := func(fn *ssa.Function, typ, field string, isMax func(v ssa.Value) bool) int {
 		n := 0
 		eachInstr(fn, func(_ *ssa.BasicBlock, _ int, ins ssa.Instruction) {
 			mu, ok := ins.(*ssa.MapUpdate)
@@ -437,8 +433,17 @@ func runC16(c *Ctx) {
 			}
 			c.ob("C16-R5", fnKey(fn)+"#insert-"+typ+"."+field+"-same-critical-section", ins.Pos(), okCS, "the mutex is released between the limit test and the insert: two concurrent joins can both pass the test at max-1")
 		})
-		if n == 0 {
-			c.ob("C16-R5", fnKey(fn)+"#insert-"+typ+"."+field, fn.Pos(), false, "no insert into "+typ+"."+field+" found in "+fname)
+		return n
+	}
+	// the rule is evaluated in whichever function of the package performs the insert (the hub loop itself or a
+	// helper it was moved to); constructors filling a fresh map are not inserts into a live table
+	limitRule := func(rel, fname, typ, field string, isMax func(v ssa.Value) bool) {
+		total := 0
+		for _, fn := range c.srcFuncs(rel) {
+			total += limitRuleIn(fn, typ, field, isMax)
+		}
+		if total == 0 {
+			c.ob("C16-R5", rel+"."+fname+"#insert-"+typ+"."+field, token.NoPos, false, "no insert into "+typ+"."+field+" found in "+rel)
 		}
 	}
 	limitRule(wsPkg, "Hub.Run", "Hub", "connections", func(v ssa.Value) bool {
